@@ -348,7 +348,7 @@ func (r *FuncResult) SMTTextWith(o *Obligation, extra []*smt.Term, filter bool) 
 					core = core.Args[1]
 				}
 				atoms := x.definedAtoms(core, memo)
-				take := len(atoms) == 0 || containsQuant(h)
+				take := len(atoms) == 0 || containsQuant(h) || x.keepHyp[h.ID]
 				if !take {
 					for _, id := range atoms {
 						if rel[id] {
